@@ -256,6 +256,9 @@ def verify_unit_once(unit, info, repo, workdir, seed=None, rlimit_mult=1, modes=
                 clause = '%s: %s' % (s['label'], s['text'][0]['text'].strip())
                 break
         site = lines[ln].strip() if ln is not None and ln < len(lines) else ''
+        # an assert that only names the witness of an existential postcondition at the return point IS that postcondition
+        if kind == 'assert' and '// post-witness' in site:
+            kind = 'post'
         reg = region_by_label.get(lm[0]) if lm[0] else None
         props = (reg['props'] if reg else None) or direc['fnprops'].get(fn) or info.get('props') or a['props']
         aux = any(re.search(p, site) or re.search(p, clause) for p in direc['aux']) or '// aux' in site or '// aux' in clause
